@@ -1,4 +1,5 @@
 """C04 — the packed CAN layout tiles the message."""
+import own_lookup
 import json
 
 import common
@@ -24,13 +25,13 @@ def wire_width(fcp, t):
     from fcp.specs import type as T
     import ref_wire
     if type(t) in (T.UnsignedType, T.SignedType):
-        return t.get_length()
+        return int(t.name[1:])
     if type(t) is T.FloatType:
         return 32
     if type(t) is T.DoubleType:
         return 64
     if type(t) is T.EnumType:
-        return ref_wire.enum_width(fcp.get_enum(t.name).unwrap())
+        return ref_wire.enum_width(own_lookup.enum(fcp, t.name))
     if type(t) is T.ArrayType:
         return t.size * wire_width(fcp, t.underlying_type)
     raise TypeError(t)
@@ -50,7 +51,7 @@ def expected_names(fcp, sname, unroll, prefix=""):
                 leaf(f"{name}_{i}", t.underlying_type, pre)
         else:
             out.append(pre + name)
-    for f in sorted(fcp.get_struct(sname).unwrap().fields, key=lambda f: f.field_id):
+    for f in sorted(own_lookup.struct(fcp, sname).fields, key=lambda f: f.field_id):
         leaf(f.name, f.type, prefix)
     return out
 
